@@ -295,7 +295,7 @@ class Gen(Hostile):
     """request generator: next() -> (request dict, [tags], base request, [(tag, field, value)])"""
     def __init__(s, rnd, ck, st, keys, weights=None):
         super().__init__(rnd, ck, st, keys); s.weights = weights or DEFAULT_FN_WEIGHTS; s.fns = list(s.weights); s.w = [s.weights[f] for f in s.fns]
-        s.count = 0; s.last_sig = ''; s.last_ct = ''
+        s.count = 0; s.last_sig = ''; s.last_ct = ''; s.use_queue = []
     # ---------------------------------------------------------------- template helpers
     def A(s, t, v):
         t = s.ck[t] if isinstance(t, str) else t
@@ -326,7 +326,7 @@ class Gen(Hostile):
         return items
     def hostile_template(s, base, get=False):
         """-> (class label, template spec).  `base` is a list of entries (input template) or of get-slots."""
-        r = s.rnd; ck = s.ck; t = copy.deepcopy(base) if isinstance(base, list) else []; c = r.randrange(14 if not get else 8)
+        r = s.rnd; ck = s.ck; t = copy.deepcopy(base) if isinstance(base, list) else []; c = r.choice(list(range(14)) + [3, 7, 9, 10, 10, 10]) if not get else r.randrange(8)
         def pickidx(pred=lambda e: True):
             ix = [i for i, e in enumerate(t) if pred(e)]; return r.choice(ix) if ix else None
         if get:
@@ -572,9 +572,31 @@ class Gen(Gen_base2):
         fn = r.choices(s.fns, s.w)[0]
         if fn in DATA_PHASE and r.random() < 0.7: fn = r.choices(s.fns, s.w)[0]   # data-phase calls without an active operation are shallow: damp them
         return fn
+    def use_request(s, h, kind):
+        """a well-formed first use of a freshly made object (create-then-use chaining: hostile templates only bite when the key is used)"""
+        r = s.rnd; kc = kclass(kind); S = s.sess(); R = s.K.RAW
+        dt = s.T([('CKA_CLASS', 'CKO_SECRET_KEY'), ('CKA_KEY_TYPE', 'CKK_GENERIC_SECRET'), ('CKA_TOKEN', False), ('CKA_SENSITIVE', False), ('CKA_EXTRACTABLE', True)])
+        def init(fn, m): return {'fn': fn, 's': S, 'mech': s.mech(m), 'key': h, '_mech': m}
+        if kc == 'aes': return r.choice([init('C_EncryptInit', r.choice(['CKM_AES_CBC_PAD', 'CKM_AES_ECB', 'CKM_AES_GCM', 'CKM_AES_CTR'])), init('C_SignInit', 'CKM_AES_CMAC'), init('C_DecryptInit', 'CKM_AES_CBC_PAD')])
+        if kc in ('des3', 'des2', 'des'): return r.choice([init('C_EncryptInit', 'CKM_DES3_CBC_PAD'), init('C_SignInit', 'CKM_DES3_CMAC')])
+        if kc == 'generic': return r.choice([init('C_SignInit', 'CKM_SHA256_HMAC'), init('C_VerifyInit', 'CKM_SHA_1_HMAC'), {'fn': 'C_DigestKey', 's': S, 'key': h}])
+        if kc == 'rsa-pub': return r.choice([init('C_EncryptInit', r.choice(['CKM_RSA_PKCS', 'CKM_RSA_PKCS_OAEP', 'CKM_RSA_X_509'])), init('C_VerifyInit', r.choice(['CKM_SHA256_RSA_PKCS', 'CKM_RSA_PKCS', 'CKM_SHA1_RSA_PKCS_PSS']))])
+        if kc == 'rsa-priv': return r.choice([init('C_SignInit', r.choice(['CKM_SHA256_RSA_PKCS', 'CKM_RSA_PKCS', 'CKM_RSA_PKCS_PSS', 'CKM_RSA_X_509'])), init('C_DecryptInit', r.choice(['CKM_RSA_PKCS', 'CKM_RSA_PKCS_OAEP']))])
+        if kc in ('ec-pub', 'ed-pub', 'dsa-pub'): return init('C_VerifyInit', {'ec-pub': 'CKM_ECDSA', 'ed-pub': 'CKM_EDDSA', 'dsa-pub': r.choice(['CKM_DSA', 'CKM_DSA_SHA256'])}[kc])
+        if kc in ('ec-priv', 'ed-priv') and r.random() < 0.5:
+            peer = (kind.split(':')[0].rstrip('b') + 'b') if kind and ':' in kind else 'ec_p256b'
+            return {'fn': 'C_DeriveKey', 's': S, 'mech': {'m': s.ck.CKM_ECDH1_DERIVE, 'p': {'ecdh1': {'kdf': 1, 'public': R.get(peer, R['ec_p256b'])['CKA_EC_POINT']}}}, 'key': h, 'tmpl': dt, '_mech': 'CKM_ECDH1_DERIVE', '_kind': 'generic32'}
+        if kc in ('ec-priv', 'ed-priv', 'dsa-priv'): return init('C_SignInit', {'ec-priv': 'CKM_ECDSA', 'ed-priv': 'CKM_EDDSA', 'dsa-priv': r.choice(['CKM_DSA', 'CKM_DSA_SHA1'])}[kc])
+        if kc == 'dh-priv' and r.random() < 0.6: return {'fn': 'C_DeriveKey', 's': S, 'mech': {'m': s.ck.CKM_DH_PKCS_DERIVE, 'p': {'hex': R['dh1024b']['CKA_VALUE']}}, 'key': h, 'tmpl': dt, '_mech': 'CKM_DH_PKCS_DERIVE', '_kind': 'generic32'}
+        wk = s.st.pick_objs({'aes'}, 0)
+        if kc.endswith('-priv') and wk: return {'fn': 'C_WrapKey', 's': S, 'mech': {'m': s.ck.CKM_AES_KEY_WRAP_PAD, 'p': None}, 'wkey': r.choice(wk).h, 'key': h, 'buf': 8192, '_mech': 'CKM_AES_KEY_WRAP_PAD'}
+        return {'fn': 'C_GetAttributeValue', 's': S, 'o': h, 'tmpl': [{'t': s.ck[a], 'buf': 4096} for a in ('CKA_VALUE', 'CKA_CHECK_VALUE', 'CKA_LABEL')]}
     def next(s):
         r = s.rnd; s.count += 1; s._force_s = None
-        fn = s.pick_fn(); q = s.base(fn)
+        if s.use_queue and s.st.init and r.random() < 0.75:
+            h, kind = s.use_queue.pop(0); q = s.use_request(h, kind); fn = q['fn']
+            if r.random() < 0.8: return dict(q), [], q, []
+        else: fn = s.pick_fn(); q = s.base(fn)
         if s._force_s is not None and 's' in q:
             q['s'] = s._force_s
             if 'data' in q: q['data'] = s.data_for(s._force_s)
@@ -610,9 +632,11 @@ class Gen(Gen_base2):
             ti = st.slots.index(req['slot']); st.stale += [o.h for o in st.objs if o.ti == ti]; st.objs = [o for o in st.objs if o.ti != ti]
         elif fn in ('C_CreateObject', 'C_CopyObject', 'C_GenerateKey', 'C_UnwrapKey', 'C_DeriveKey') and ok and res.get('h'):
             st.objs.append(Obj(res['h'], req.get('_kind'), st.sessions.get(S, {'ti': 0})['ti']))
+            if (req.get('_tags') or s.rnd.random() < 0.3) and req.get('_kind'): s.use_queue.append((res['h'], req['_kind']))
         elif fn == 'C_GenerateKeyPair' and ok:
             ti = st.sessions.get(S, {'ti': 0})['ti']; k = req.get('_kind') or 'rsa1024'
             st.objs.append(Obj(res['hpub'], k + ':pub', ti)); st.objs.append(Obj(res['hpriv'], k + ':priv', ti))
+            if req.get('_tags'): s.use_queue += [(res['hpriv'], k + ':priv'), (res['hpub'], k + ':pub')]
         elif fn == 'C_DestroyObject' and ok:
             st.stale.append(req['o']); st.objs = [o for o in st.objs if o.h != req['o']]
         elif fn in INIT_OP:
